@@ -514,7 +514,8 @@ func (x *Exec) callByContract(ct *Contract, callee *types.Func, n *ast.CallExpr,
 		// `modifies *p` style: pointer arguments whose pointee changes
 		if v, ok := names[pname]; ok {
 			if p, isPt := v.(Pt); isPt {
-				nv := Pt{p.Nil, c.freshVal("call."+short+"."+pname, p.T, nil), p.T}
+				// plain fields are arbitrary afterwards; external objects inside keep their identity (ghost state havocked)
+				nv := Pt{p.Nil, x.keepObjs(p.Elem, c.freshVal("call."+short+"."+pname, p.T, nil), "call."+short+"."+pname), p.T}
 				postNames[pname] = nv
 				if ae := argExprs[pname]; ae != nil {
 					post = x.assignBack(ae, nv, post)
